@@ -2,8 +2,14 @@
 package main
 
 import (
+	"encoding/json"
+	"fmt"
 	"net"
+	"os"
+	"sort"
 	"strings"
+	"unicode"
+	"unicode/utf8"
 
 	"bfeverif/harness/internal/c1xroute"
 	"bfeverif/harness/internal/vh"
@@ -17,7 +23,91 @@ import (
 
 type entry struct{ host, tag, product string }
 
-var ips = []string{"10.0.0.1", "10.0.0.2", "192.168.1.1", "::1", "2001:db8::1", "0.0.0.0"}
+// configured VIP texts: canonical, non-canonical spellings of the same address, and unparsable ones
+var vipTexts = []string{"10.0.0.1", "::ffff:10.0.0.1", "10.0.0.2", "192.168.1.1", "::1", "0:0:0:0:0:0:0:1", "2001:db8::1",
+	"2001:DB8:0:0:0:0:0:1", "0.0.0.0", "::", "fe80::1"}
+var vipBad = []string{"10.0.0", "300.1.1.1", "abc", "", "10.0.0.1:80", "[::1]", "1.2.3.4.5", "::g"}
+
+// connection VIPs (raw bytes of Session.Vip)
+var vipProbes = []string{"0a000001", "00000000000000000000ffff0a000001", "0a000002", "c0a80101", "00000000000000000000000000000001",
+	"20010db8000000000000000000000001", "00000000", "00000000000000000000000000000000", "fe800000000000000000000000000001",
+	"0a0000", "0a00000100", "-", "00000000000000000000ffff0a0000", "7f000001"}
+
+// labels with non-ASCII runes (case pairs, special lower mappings, multi-byte) and invalid UTF-8
+var uniLabels = []string{"É", "é", "ß", "\u212a", "k", "\u0130", "i\u0307", "\u01c5", "\u01c6", "Σ", "σ", "ς", "百度", "\U0001f600", "ÀB", "àb",
+	"\xff", "\xc3", "\xe2\x82", "\xc0\xaf", "\xed\xa0\x80", "\xf4\x90\x80\x80", "a\xffb", "\ufffd", ";", ">", " ", "\x00", "&="}
+
+func hostField(h string) string {
+	plain := !strings.HasPrefix(h, "x:")
+	for i := 0; i < len(h) && plain; i++ {
+		c := h[i]
+		if c < 33 || c > 126 || c == '>' || c == '&' || c == ';' || c == '=' {
+			plain = false
+		}
+	}
+	if plain {
+		return h
+	}
+	return "x:" + vh.Hex([]byte(h))
+}
+
+func parseHostField(f string) (string, bool) {
+	if strings.HasPrefix(f, "x:") {
+		b, ok := vh.UnHex(f[2:])
+		return string(b), ok
+	}
+	return f, true
+}
+
+// lowerOracle lists unicode.ToLower for every non-ASCII rune of the given strings (Go's decoding).
+func lowerOracle(hosts []string) string {
+	m := map[rune]rune{}
+	for _, h := range hosts {
+		for _, c := range h { // invalid bytes decode to U+FFFD
+			if c >= utf8.RuneSelf {
+				m[c] = unicode.ToLower(c)
+			}
+		}
+	}
+	var ks []int
+	for k := range m {
+		ks = append(ks, int(k))
+	}
+	sort.Ints(ks)
+	var out []string
+	for _, k := range ks {
+		out = append(out, fmt.Sprintf("%d:%d", k, m[rune(k)]))
+	}
+	return strings.Join(out, ",")
+}
+
+func to16hex(text string) string {
+	ip := net.ParseIP(text)
+	if ip == nil {
+		return "x"
+	}
+	return vh.Hex(ip.To16())
+}
+
+func uniHost(r *vh.Rand, pool []string) string {
+	n := 1 + r.Intn(3)
+	var ls []string
+	for i := 0; i < n; i++ {
+		if r.Chance(1, 2) {
+			ls = append(ls, uniLabels[r.Intn(len(uniLabels))])
+		} else {
+			ls = append(ls, c1xroute.GenHostName(r))
+		}
+	}
+	h := strings.Join(ls, ".")
+	if len(pool) > 0 && r.Chance(1, 3) {
+		h = uniLabels[r.Intn(len(uniLabels))] + "." + strings.TrimPrefix(pool[r.Intn(len(pool))], "*.")
+	}
+	if r.Chance(1, 4) {
+		h = "*." + h
+	}
+	return h
+}
 
 func normKey(h string) string {
 	h = strings.ToLower(h)
@@ -39,6 +129,8 @@ func genPattern(r *vh.Rand, pool []string) string {
 
 func gen(r0 *vh.Rand) string {
 	r := c1xroute.CaseRand(r0)
+	uni := r.Chance(1, 5)    // non-ASCII / invalid UTF-8 / odd bytes in names
+	v6lit := r.Chance(1, 12) // bracketed IPv6 literals
 	n := r.Intn(7)
 	if r.Chance(1, 10) {
 		n = 0
@@ -48,10 +140,13 @@ func gen(r0 *vh.Rand) string {
 	seen := map[string]bool{}
 	for i := 0; i < n; i++ {
 		h := genPattern(r, pool)
-		if seen[normKey(h)] && !r.Chance(1, 20) {
-			continue
+		if uni && r.Chance(1, 2) {
+			h = uniHost(r, pool)
 		}
-		if r.Chance(1, 50) { // byte-identical duplicates cannot be in a Go map
+		if v6lit && r.Chance(1, 2) {
+			h = r.Pick("[::1]", "[2001:db8::1]", "[::1]:80", "[", "[::1", "[a.com]")
+		}
+		if seen[normKey(h)] && !r.Chance(1, 20) {
 			continue
 		}
 		dup := false
@@ -68,16 +163,24 @@ func gen(r0 *vh.Rand) string {
 		ti := r.Intn(4)
 		es = append(es, entry{h, "t" + string(rune('0'+ti)), "p" + string(rune('0'+ti%3))})
 	}
+	// VIP table: product -> address texts
 	var vs []string
-	nv := r.Intn(3)
+	nv := r.Intn(4)
+	if r.Chance(1, 3) {
+		nv = 0
+	}
 	used := map[string]bool{}
 	for i := 0; i < nv; i++ {
-		ip := ips[r.Intn(len(ips))]
-		if used[ip] {
+		t := vipTexts[r.Intn(len(vipTexts))]
+		if r.Chance(1, 25) {
+			t = vipBad[r.Intn(len(vipBad))]
+		}
+		k := to16hex(t)
+		if used[k] && !r.Chance(1, 10) {
 			continue
 		}
-		used[ip] = true
-		vs = append(vs, ip+">v"+string(rune('0'+i)))
+		used[k] = true
+		vs = append(vs, t+"~"+k+">v"+string(rune('0'+r.Intn(2))))
 	}
 	d := ""
 	if r.Chance(1, 2) {
@@ -91,60 +194,135 @@ func gen(r0 *vh.Rand) string {
 	if r.Chance(1, 25) {
 		h = r.Pick("A.b.Com.", "a.b.com..", "@.com", "[.COM", "`{.com", "z.com", "a.com:", ":", ".:80", "a.b.c.d.e.f.com")
 	}
-	for strings.ContainsAny(h, ">&;=") {
-		h = c1xroute.GenHostName(r)
+	if uni && r.Chance(1, 3) {
+		h = uniHost(r, pool)
+		if r.Chance(1, 3) {
+			h = strings.ToUpper(h)
+		}
+		if r.Chance(1, 4) {
+			h += ":80"
+		}
+	}
+	if v6lit && r.Chance(2, 3) {
+		h = r.Pick("[::1]", "[::1]:80", "[2001:db8::1]:8080", "[2001:DB8::1]", "[", "[::1", "[a.com]:80", "[::1].")
 	}
 	ip := "nil"
-	if r.Chance(2, 3) {
-		ip = ips[r.Intn(len(ips))]
+	if r.Chance(3, 4) {
+		ip = vipProbes[r.Intn(len(vipProbes))]
+		if len(vs) > 0 && r.Chance(1, 2) {
+			// the connection arrived on a configured address, in 16-byte or (if it has one) 4-byte form
+			e := vs[r.Intn(len(vs))]
+			k := e[strings.IndexByte(e, '~')+1 : strings.IndexByte(e, '>')]
+			if k != "x" {
+				ip = k
+				if strings.HasPrefix(k, "00000000000000000000ffff") && r.Bool() {
+					ip = k[24:]
+				}
+			}
+		}
 	}
 	var et []string
+	all := []string{h}
 	for _, e := range es {
-		et = append(et, e.host+">"+e.tag+">"+e.product)
+		et = append(et, hostField(e.host)+">"+e.tag+">"+e.product)
+		all = append(all, e.host)
 	}
-	return "t=" + strings.Join(et, "&") + ";v=" + strings.Join(vs, "&") + ";d=" + d + ";h=" + h + ";ip=" + ip
+	return "t=" + strings.Join(et, "&") + ";v=" + strings.Join(vs, "&") + ";d=" + d + ";h=" + hostField(h) + ";ip=" + ip + ";u=" + lowerOracle(all)
+}
+
+type vipFile struct {
+	Version string
+	Vips    map[string][]string
+}
+
+func loadVips(entries [][2]string) (vip_rule_conf.VipConf, error) {
+	vf := vipFile{Version: "v", Vips: map[string][]string{}}
+	for _, e := range entries {
+		vf.Vips[e[1]] = append(vf.Vips[e[1]], e[0])
+	}
+	data, err := json.Marshal(vf)
+	if err != nil {
+		return vip_rule_conf.VipConf{}, err
+	}
+	f, err := os.CreateTemp("", "verif-c10-*.json")
+	if err != nil {
+		return vip_rule_conf.VipConf{}, err
+	}
+	name := f.Name()
+	defer os.Remove(name)
+	f.Write(data)
+	f.Close()
+	return vip_rule_conf.VipRuleConfLoad(name)
 }
 
 func exec(op string) string {
 	t, ok1 := c1xroute.KV(op, "t")
 	v, ok2 := c1xroute.KV(op, "v")
 	d, ok3 := c1xroute.KV(op, "d")
-	h, ok4 := c1xroute.KV(op, "h")
+	hf, ok4 := c1xroute.KV(op, "h")
 	ip, ok5 := c1xroute.KV(op, "ip")
 	if !(ok1 && ok2 && ok3 && ok4 && ok5) {
 		return "bad-op"
 	}
+	h, ok := parseHostField(hf)
+	if !ok {
+		return "bad-op"
+	}
 	hc := host_rule_conf.HostConf{Version: "v", DefaultProduct: d,
 		HostMap: host_rule_conf.Host2HostTag{}, HostTagMap: host_rule_conf.HostTag2Product{}}
+	all := []string{h}
 	if t != "" {
 		for _, e := range strings.Split(t, "&") {
 			f := strings.Split(e, ">")
 			if len(f) != 3 {
 				return "bad-op"
 			}
-			hc.HostMap[f[0]] = f[1]
+			host, ok := parseHostField(f[0])
+			if !ok {
+				return "bad-op"
+			}
+			all = append(all, host)
+			hc.HostMap[host] = f[1]
 			hc.HostTagMap[f[1]] = f[2]
 		}
 	}
-	vc := vip_rule_conf.VipConf{Version: "v", VipMap: vip_rule_conf.Vip2Product{}}
+	// the two oracle fields of the op line must be what Go's std library says
+	if u, ok := c1xroute.KV(op, "u"); ok && u != lowerOracle(all) {
+		return "bad-oracle:u"
+	}
+	var ventries [][2]string
 	if v != "" {
 		for _, e := range strings.Split(v, "&") {
 			f := strings.Split(e, ">")
 			if len(f) != 2 {
 				return "bad-op"
 			}
-			vc.VipMap[f[0]] = f[1]
+			tk := strings.Split(f[0], "~")
+			if len(tk) != 2 {
+				return "bad-op"
+			}
+			if to16hex(tk[0]) != tk[1] {
+				return "bad-oracle:v"
+			}
+			ventries = append(ventries, [2]string{tk[0], f[1]})
+		}
+	}
+	vc := vip_rule_conf.VipConf{Version: "v", VipMap: vip_rule_conf.Vip2Product{}}
+	if len(ventries) > 0 {
+		var err error
+		if vc, err = loadVips(ventries); err != nil {
+			return "err:load"
 		}
 	}
 	ht := new(bfe_route.HostTable)
 	ht.Update(hc, vc, &route_rule_conf.RouteTableConf{})
 	req := &bfe_basic.Request{Session: &bfe_basic.Session{}, HttpRequest: &bfe_http.Request{Host: h}}
 	if ip != "nil" {
-		p := net.ParseIP(ip)
-		if p == nil {
+		b, ok := vh.UnHex(ip)
+		if !ok {
 			return "bad-op"
 		}
-		req.Session.Vip = p
+		req.Session.Vip = append(net.IP{}, b...)
 	}
 	err := ht.LookupHostTagAndProduct(req)
 	res := "ok"
